@@ -330,7 +330,7 @@ def gen_graph_specs(ctx):
         rng.shuffle(order)
         specs.append(('random', mk(rng.choice(['opt', 'opt', 'linked']), pl, order,
                                   uid_style=rng.choice(['short', 'short', 'uuid']))))
-    # nodes whose name is None (the key is present)
+    # nodes whose name is None (the key is present): LinkedGraphNode.name is '' for them
     for i in range(ctx.budget(6, 40)):
         n = rng.choice([1, 2, 3])
         pl = [[p for p in range(c) if rng.random() < 0.6] for c in range(n)]
@@ -338,13 +338,6 @@ def gen_graph_specs(ctx):
         st[rng.randrange(n)] = 'none'
         specs.append(('none-name', mk('opt', pl, None, st)))
     return specs
-
-
-def graph_finding(spec, flags):
-    """known defect classes of the pinned tree (matched against known_findings.json by key)"""
-    if any(name_style(ns['content']) == 'none' for ns in spec['nodes']):
-        return 'C11.none-name-stringified'
-    return None
 
 
 def run_graphs(ctx):
@@ -378,7 +371,7 @@ def run_graphs(ctx):
                                          '(JSON tree / heap after save / loaded structure / second JSON)')
         for ok, what in zip(r[1:], GRAPH_CLAUSES):
             if not ok:
-                ctx.violate('graphs', case, what, finding_key=graph_finding(spec, r))
+                ctx.violate('graphs', case, what)
         if seen_samples < 2 and n == 3 and edges >= 2:
             seen_samples += 1
             ctx.sample({'group': 'graphs', 'spec': spec, 'saved_json': o['json'],
@@ -581,19 +574,6 @@ def gen_ind_specs(ctx):
     return out
 
 
-def ind_finding(spec, r):
-    """r = (agree, pure, content, fitness-behaviour, identifier, resave)"""
-    f = spec['fitness']
-    valid = f is not None and ((f[0] == 'S' and f[1][0] is not None) or (f[0] == 'M' and len(f[1]) > 0))
-    multi = f is not None and f[0] == 'M'
-    keys = []
-    if not r[3] and (valid or multi):
-        keys.append('C11.loaded-fitness-not-comparable')
-    if not r[5] and spec['pop'] is not None and spec['pop']['parents']:
-        keys.append('C11.resave-loaded-individual-raises')
-    return keys
-
-
 def run_individuals(ctx):
     specs = gen_ind_specs(ctx)
     cases, meta = [], []
@@ -618,15 +598,9 @@ def run_individuals(ctx):
         case = {'group': 'individuals', 'spec': spec}
         if not r[0]:
             ctx.disagree('individuals', case, 'model and implementation differ on the individual round trip')
-        keys = ind_finding(spec, r)
-        for idx, (ok, what) in enumerate(zip(r[1:], IND_CLAUSES)):
+        for ok, what in zip(r[1:], IND_CLAUSES):
             if not ok:
-                key = None
-                if idx == 2 and 'C11.loaded-fitness-not-comparable' in keys:
-                    key = 'C11.loaded-fitness-not-comparable'
-                if idx == 4 and 'C11.resave-loaded-individual-raises' in keys:
-                    key = 'C11.resave-loaded-individual-raises'
-                ctx.violate('individuals', case, what, finding_key=key)
+                ctx.violate('individuals', case, what)
         if sampled < 2 and valid and spec['pop'] is not None:
             sampled += 1
             ctx.sample({'group': 'individuals', 'spec': spec, 'saved_json': o['json'], 'second_text_equal': o['text_same'],
@@ -1042,18 +1016,16 @@ def replay(ctx, payload):
             ctx.disagree('replay', case, 'model and implementation differ on the round trip')
         for ok, what in zip(r[1:], GRAPH_CLAUSES):
             if not ok:
-                ctx.violate('replay', case, what, finding_key=graph_finding(case['spec'], r))
+                ctx.violate('replay', case, what)
     elif grp == 'individuals':
         h, term, o = observe_individual(case['spec'], False)
         r = ctx.coq_cases('replay', REQ, FN_IND, [ind_case(case['spec'], h, term, o)], K_IND, preamble=PRE)[0]
         ctx.count('replay', key=json.dumps(case, sort_keys=True), nontrivial=True)
         if not r[0]:
             ctx.disagree('replay', case, 'model and implementation differ on the individual round trip')
-        keys = ind_finding(case['spec'], r)
-        for idx, (ok, what) in enumerate(zip(r[1:], IND_CLAUSES)):
+        for ok, what in zip(r[1:], IND_CLAUSES):
             if not ok:
-                key = keys[0] if keys and idx in (2, 4) else None
-                ctx.violate('replay', case, what, finding_key=key)
+                ctx.violate('replay', case, what)
     elif grp == 'lockstep':
         vo, vl, steps = lock_run(case['spec'], [tuple(o) for o in case['ops']], case.get('via_individual', False))
         r = ctx.coq_cases('replay', REQ, FN_LOCK, [lock_case(vo, vl, steps)], 2, preamble=PRE)[0]
